@@ -42,7 +42,7 @@ def gen_body(rng, tier, scale):
 
 
 def gen(rng, tier="quick", prop="C16"):
-    cfg = {"faults": sorted(f for f in ("dup", "frames", "motion", "live-surface", "setpose", "setE") if rng.chance(0.7)),
+    cfg = {"faults": sorted(f for f in ("dup", "frames", "motion", "live-surface", "setpose", "setE", "nudge") if rng.chance(0.7)),
            "identity_rotations": rng.chance(0.15)}
     faults = set(cfg["faults"])
     scale = rng.choice([0.05, 0.15, 0.5, 1.0, 2.0])
@@ -56,7 +56,7 @@ def gen(rng, tier="quick", prop="C16"):
         if not cfg["identity_rotations"]:
             T[:3, :3] = rng.rot()
         if anchor is None:
-            T[:3, 3] = rng.position(rng.choice([0.0, 1.0, 10.0]))
+            T[:3, 3] = rng.position(rng.choice([0.0, 1.0, 10.0, 100.0, 500.0]))
         else:
             u = np.array(rng.unit())
             f = rng.choice([0.2, 0.5, 0.7, 0.9, 1.0, 1.2])
@@ -85,6 +85,11 @@ def gen(rng, tier="quick", prop="C16"):
                 pos[s] = T[:3, 3].copy()
                 ops.append({"op": "setpose", "s": s, "pose": (T + 0.0).tolist()})
                 continue
+        if r < 0.2 and "nudge" in faults:
+            s_ = rng.randrange(nb)
+            d = (np.array(rng.unit()) * ext[s_] * rng.logu(1e-3, 0.3)).tolist()
+            ops.append({"op": "nudge", "s": s_, "d": d})
+            continue
         if r < 0.15 and "setE" in faults:
             ops.append({"op": "setE", "s": a, "E": rng.logu(1e-2, 1e2)})
             continue
@@ -132,6 +137,8 @@ class Model:
             self.s[op["s"]] = {"kind": op["kind"], "params": op["params"], "E": op["E"], "reexpressed": False,
                                "calls": 0}
             return True
+        if k == "nudge":
+            return op["s"] in self.s
         if k in ("setpose", "setE"):
             e = self.s.get(op["s"])
             if e is None:
@@ -243,7 +250,7 @@ def signature(plan):
         elif k == "surface":
             sig.append("s%d%d%s" % (op["a"], op["b"], (op.get("live") or "")[:1]))
         else:
-            sig.append(k[3] + str(op["s"]))
+            sig.append(k[2] + str(op["s"]))
     return "".join(sig)
 
 
@@ -293,6 +300,8 @@ def stats(plan, jr):
             if op.get("live"):
                 inc("fault.live-surface." + op["live"])
                 fault = True
+        elif kind == "nudge":
+            inc("fault.nudge_in_place")
         elif kind == "setpose":
             inc("fault.setpose")
         elif kind == "setE":
